@@ -31,8 +31,9 @@ namespace Rtsp.Drv.Pipe
 open Rtsp.Pipe
 
 structure Aux where
-  consumed : Nat := 0
-  budget   : Option Nat := none
+  consumed     : Nat := 0
+  budget       : Option Nat := none
+  closePending : Bool := false     -- `pcl` seen: `ring.Close()` happens as soon as enough was pushed
 deriving Inhabited
 
 structure DS where
@@ -64,6 +65,24 @@ def DS.carryN (d : DS) (r : Nat) : Nat → DS
   | 0 => d
   | n + 1 => (d.ev (.ctl r .carry)).carryN r n
 
+/-- after `pcl`: the ring is closed as soon as the packets that were delivered have all been pushed -/
+def DS.tryClose (d : DS) (r : Nat) : DS :=
+  let a := d.ax r
+  let x := d.rd r
+  if !a.closePending || x.status != .playing then d else
+  match a.budget with
+  | none => d     -- UDP: what was delivered is not known here; the ring is closed at `pinact` (as late as possible)
+  | some b =>
+    if x.queue.length < b then d else
+    let d := d.consumeN r b
+    (d.ev (.ctl r .pclose)).setAx r { (d.ax r) with closePending := false, budget := some 0 }
+
+def DS.tryCloseAll (d : DS) : DS := Id.run do
+  let mut d := d
+  for i in [0:d.aux.length] do
+    if (d.ax i).closePending then d := d.tryClose i
+  return d
+
 def parseFmt (s : String) : Option Fmt :=
   match s.splitOn ":" with
   | [a, b] => match a.toNat?, b.toNat? with
@@ -92,6 +111,12 @@ def resolveWrite (d : DS) (m : Nat) (outs : List Char) : DS := Id.run do
     if outs.getD i '-' == '?' then
       -- closed ring: take the push while there is room, then let the writer disappear
       if (d.rd i).status == .ringClosed && outcome d.cfg (d.rd i) m == .refused then d := d.ev (.ctl i .pnil)
+      else if (d.rd i).status == .playing && outcome d.cfg (d.rd i) m == .refused then
+        match (d.ax i).budget with
+        | some (b + 1) =>
+          d := d.consume i
+          d := d.setAx i { (d.ax i) with budget := some b }
+        | _ => pure ()
     else if outs.getD i '-' == 'a' && outcome d.cfg (d.rd i) m == .refused then
       let a := d.ax i
       match a.budget with
@@ -150,7 +175,7 @@ def mk : IO Handler := do
         let cs := (List.range os.length).map fun i =>
           if os.getD i .skip != .skip && (closingSt (d1.rd i) || hint.getD i '-' == '?') then '?'
           else ochar (os.getD i .skip)
-        ref.set (d1.ev (.write m p))
+        ref.set (d1.ev (.write m p)).tryCloseAll
         return if os.isEmpty then "." else String.ofList cs
       | _, _, _, _, _, _ => return "bad-op"
     | ["pstart", r, k] =>
@@ -168,17 +193,8 @@ def mk : IO Handler := do
     | ["pcl", r] =>
       match r.toNat? with
       | some r =>
-        let x := d.rd r
-        let mut d := d
-        if x.status == .playing then
-          match (d.ax r).budget with
-          | some b =>
-            if x.queue.length < b then return s!"bad delivered {b - x.queue.length} more than were pushed"
-            d := d.consumeN r b
-          | none => if x.udp then d := d.consumeN r x.queue.length
-          d := d.ev (.ctl r .pclose)
-          d := d.setAx r { (d.ax r) with budget := some 0 }
-        ref.set d
+        let d := d.setAx r { (d.ax r) with closePending := true }
+        ref.set (d.tryClose r)
         return "ok"
       | none => return "bad-op"
     | ["pinact", r] =>
@@ -194,6 +210,7 @@ def mk : IO Handler := do
           | none => if x.udp then d := d.consumeN r x.queue.length
           d := d.ev (.ctl r .pclose)
         if (d.rd r).status == .ringClosed then d := d.ev (.ctl r .pnil)
+        d := d.setAx r { (d.ax r) with closePending := false }
         if !x.udp then d := d.carryN r (d.rd r).wire.length
         d := d.ev (.ctl r .pinact)
         d := d.setAx r { (d.ax r) with budget := none }
